@@ -38,21 +38,27 @@ CHECK = {
            'Sink recycling: all 27 sequences of three sinks out of {heap File wrapping an open FILE*, heap File opened with sopen, heap String} x 7 format rotations '
            '(%d, %s, %5.2f, %$, literal, %%, mixed); each sink is created for one formatting (+ an appended follow-up) and released, the next one is created with nothing '
            'formatted in between; text, prefix and both positions are checked and the evidence records how often the new sink received the released one\'s address. '
+           'Re-entrant formatting: a user type whose C_Str, C_Int, C_Float and Show instances each print_to (different short formats) into the object\'s private heap String '
+           'before answering, used as argument of 10 specifications (%s %-12s %.3s %li %08li %+d %f %5.2f %.1e %$) alone, bracketed, and in all 100 ordered pairs '
+           '"x=A; y=B." with two objects or the same object twice, both sinks, two starts; expected text assembled from snprintf of the parts. '
+           'Failure history: k in {0,1,2,31,32,33,64,100} caught refused formattings of each kind (%$ onto a File with no stream, %$ onto a stack String, too few arguments, '
+           '%$ of a user type whose Show throws (alone / inside a Tuple), %s of an Int, and all five mixed), each (kind, k) in its own forked child; the small grid '
+           '(%$ of Int, Float, String, Array, Tuple; %d; %s; literal; %%; mixed) on both sinks and two starts must then write and return exactly what it did before the failures. '
            'distinct_nontrivial = (specification, value) pairs whose C output differs from the output of the bare conversion '
            '(flags, width or precision change the text) + non-empty %$ scalar texts + container shapes with >= 2 elements + '
-           'too-few-argument cases in which an argument had already been consumed when FormatError was raised + ladder (form, N) pairs with N >= 64 + argument sequences in which an object recurs and its second occurrence is followed by something other than what followed the first + recycled sinks that received the address of a released sink of the other type; each counted once (only by the gcc-built memstream instances)'),
+           'too-few-argument cases in which an argument had already been consumed when FormatError was raised + ladder (form, N) pairs with N >= 64 + argument sequences in which an object recurs and its second occurrence is followed by something other than what followed the first + recycled sinks that received the address of a released sink of the other type + re-entrant formats + history cases with at least one refused formatting; each counted once (only by the gcc-built memstream instances)'),
   'bounds': {
     'quick': ('flags: all defined subsets; width {none,5}; precision {none,.3}; all length modifiers; Int values {0,-1,42,128,-129,32768,INT_MAX,INT_MIN} '
               '(+ {2^32, INT64_MAX, INT64_MIN} for l ll j z t); 11 Float values incl. +-0, +inf, denormal, 1e300; 6 Strings incl. empty and 40 chars; '
               '6 chars; 6 objects for %p/%$ (heap String, Type, NULL, Ref, Box, Range); 8 contexts x 3 starts x 2 sinks (File over open_memstream); '
               '158 container shapes (element value grids incl. values beyond int32, nested one level); too-few-arguments for every specification x context x smaller argument count x sink; '
               'ASan+UBSan and a tmpfile-backed File over the same specifications with the level-0 values and starts {0,len}; '
-              'length ladder N = 1..300 and 510..514, 1022..1026, 2046..2050, 4094..4098 (gcc and ASan+UBSan builds); 117 repeated-argument sequences x 5 styles; 27 x 7 sink-recycling sequences (gcc build reuses addresses, ASan build checks memory safety only)'),
+              'length ladder N = 1..300 and 510..514, 1022..1026, 2046..2050, 4094..4098 (gcc and ASan+UBSan builds); 117 repeated-argument sequences x 5 styles; 27 x 7 sink-recycling sequences (gcc build reuses addresses, ASan build checks memory safety only); 220 re-entrant formats; 43 failure-history cases (6 kinds x 7 counts + none)'),
     'thorough': ('flags: all defined subsets; width {none,1,5,12}; precision {none,.0,.3,.10}; all length modifiers; 14 Int values within int '
                  '(+5 beyond int for l ll j z t); 15 Float values incl. +-0, +-inf, nan, denormal, 1e300, 0.1, 123456.789, rounding ties; 6 Strings; '
                  '8 chars; 6 objects for %p/%$; 8 contexts x 3 starts x 2 sinks; 158 container shapes; too-few-arguments as in quick over the full '
                  'specification set; the whole grid is run three times: gcc build with File over open_memstream, clang ASan+UBSan build, '
-                 'gcc build with File over tmpfile(); length ladder N = 1..1100 and the neighbours of 2048, 4096, 8192 (gcc and ASan+UBSan builds); 117 repeated-argument sequences x 5 styles; 27 x 7 sink-recycling sequences (gcc build reuses addresses, ASan build checks memory safety only)'),
+                 'gcc build with File over tmpfile(); length ladder N = 1..1100 and the neighbours of 2048, 4096, 8192 (gcc and ASan+UBSan builds); 117 repeated-argument sequences x 5 styles; 27 x 7 sink-recycling sequences (gcc build reuses addresses, ASan build checks memory safety only); 220 re-entrant formats; 43 failure-history cases (6 kinds x 7 counts + none)'),
   },
   'assumptions': [
     'values outside the boundary grids are represented by the grids (exhaustive over the grammar and the grids, not over int64 / double)',
@@ -75,7 +81,11 @@ CHECK = {
          T('repeat', 'base', 'mode=repeat'),
          T('repeat-asan', 'asan', 'mode=repeat', 'count_nt=0'),
          T('recycle', 'base', 'mode=recycle'),
-         T('recycle-asan', 'asan', 'mode=recycle', 'count_nt=0')]
+         T('recycle-asan', 'asan', 'mode=recycle', 'count_nt=0'),
+         T('reentrant', 'base', 'mode=reentrant'),
+         T('reentrant-asan', 'asan', 'mode=reentrant', 'count_nt=0'),
+         T('history', 'base', 'mode=history'),
+         T('history-asan', 'asan', 'mode=history', 'count_nt=0')]
       + grid_instances('small', 'asan', ['di', 'uoxX', 'fFeE', 'gGaA', 'csp$'], '-asan', ('count_nt=0',))
       + grid_instances('small', 'base', ['diuoxXcsp$', FLTS], '-tmpfile', ('file=tmpfile', 'count_nt=0'))
     ),
@@ -93,7 +103,11 @@ CHECK = {
          T('repeat', 'base', 'mode=repeat'),
          T('repeat-asan', 'asan', 'mode=repeat', 'count_nt=0'),
          T('recycle', 'base', 'mode=recycle'),
-         T('recycle-asan', 'asan', 'mode=recycle', 'count_nt=0')]
+         T('recycle-asan', 'asan', 'mode=recycle', 'count_nt=0'),
+         T('reentrant', 'base', 'mode=reentrant'),
+         T('reentrant-asan', 'asan', 'mode=reentrant', 'count_nt=0'),
+         T('history', 'base', 'mode=history'),
+         T('history-asan', 'asan', 'mode=history', 'count_nt=0')]
       + grid_instances('full', 'asan', list(INTS) + list(FLTS) + ['csp$'], '-asan', ('count_nt=0',))
       + grid_instances('full', 'base', ['d', 'i', 'uo', 'xX', 'csp$', 'fF', 'eE', 'gG', 'aA'], '-tmpfile', ('file=tmpfile', 'count_nt=0'))
     ),
